@@ -87,7 +87,7 @@ func (o *UntypedRequestBinder) Bind(request *http.Request, routeParams RoutePara
 		}
 
 		if binder.validator != nil {
-			rr := binder.validator.Validate(target.Interface())
+			rr := binder.validator.Validate(validatable(target))
 			if rr != nil && rr.HasErrors() {
 				result = append(result, rr.AsError())
 			}
@@ -103,6 +103,22 @@ func (o *UntypedRequestBinder) Bind(request *http.Request, routeParams RoutePara
 	}
 
 	return nil
+}
+
+// validatable returns a bound value as the validators expect it: values of named string types
+// (strfmt.UUID, strfmt.Password, ...) are validated as the plain strings they hold.
+func validatable(target reflect.Value) interface{} {
+	switch {
+	case target.Kind() == reflect.String:
+		return target.String()
+	case target.Kind() == reflect.Slice && target.Type().Elem().Kind() == reflect.String:
+		items := make([]string, target.Len())
+		for i := range items {
+			items[i] = target.Index(i).String()
+		}
+		return items
+	}
+	return target.Interface()
 }
 
 // SetLogger allows for injecting a logger to catch debug entries.
